@@ -590,6 +590,55 @@ class TGen:
         r.shuffle(ps)
         return self.case(ps, "sub-unit" if delta == 0 else "sub-unit-off")
 
+    def cancelling(self):
+        """the non-elided postings cancel exactly in every commodity (or in some and not in
+        others); interleaved or grouped by commodity; an elided posting first / middle / last,
+        or none (control), or two (control).  balance_t::operator+= keeps a cancelled
+        commodity as a zero entry, so the residual handed to add_balancing_post can hold
+        several zero entries."""
+        r = self.rng
+        ncomm = r.randint(1, 3)
+        cs = self.comms(ncomm)
+        groups = []
+        for c in cs:
+            k = r.choice([2, 2, 2, 3])
+            qs = [abs(self.quantity(c, mag=r.choice([-2, 0, 1, 2, 4, 9]))) for _ in range(k - 1)]
+            qs = [q * r.choice([1, -1]) for q in qs]
+            qs.append(-sum(qs))
+            groups.append([post(r.choice(ACCOUNTS), r.choice(["real", "real", "bvirtual"]),
+                                jgen.amt(q, c, max(c.dec, decimals_needed(q)))) for q in qs])
+        mode = r.choice(["interleaved", "interleaved", "grouped", "shuffled"])
+        ps = []
+        if mode == "grouped":
+            for gr in groups:
+                ps += gr
+        elif mode == "interleaved":
+            i = 0
+            while any(groups):
+                if groups[i % len(groups)]:
+                    ps.append(groups[i % len(groups)].pop(0))
+                i += 1
+        else:
+            for gr in groups:
+                ps += gr
+            r.shuffle(ps)
+        extra = r.random() < 0.35
+        if extra:       # some commodities cancel, this one does not
+            others = [c for c in POOL if c.name not in [x.name for x in cs]]
+            c = r.choice(others)
+            ps.insert(r.randint(0, len(ps)), post(r.choice(ACCOUNTS), "real", jgen.amt(self.quantity(c, mag=1), c)))
+        if r.random() < 0.15:
+            ps.insert(r.randint(0, len(ps)), post(r.choice(ACCOUNTS), "virtual", jgen.amt(self.quantity(cs[0], mag=1), cs[0])))
+        x = r.random()
+        nnull = 1 if x < 0.75 else 0 if x < 0.9 else 2
+        if nnull == 0 and extra:
+            nnull = 1
+        for _ in range(nnull):
+            pos = r.choice([0, len(ps), r.randint(0, len(ps))])
+            ps.insert(pos, post(r.choice(ACCOUNTS), r.choice(["real", "real", "bvirtual"]), None))
+        return self.case(ps, "cancel:%s:%dc:%dn%s" % (mode, ncomm, nnull, ":extra" if extra else ""),
+                         bucket=BUCKET if r.random() < 0.2 else None, warm=self.warm_for(cs, 0.2))
+
     def oddities(self):
         """null amount on a plain virtual posting, all-null transactions, amounts
         without commodity, cost in the amount's own commodity, zero amounts"""
@@ -697,9 +746,13 @@ def gen_journal(rng, n, p_bad=0.0, p_bucket=0.15, exact_only=False):
         if x < p_bad:
             c = rng.choice([g.off_by, g.two_nulls])()
         elif exact_only:
-            c = rng.choice([g.balanced, g.balanced, g.one_null, g.single])()
+            c = rng.choice([g.balanced, g.balanced, g.one_null, g.single, g.cancelling])()
+            if classify(c) == "two-nulls":
+                c = g.balanced()
         else:
-            c = rng.choice([g.balanced, g.balanced, g.one_null, g.single, g.implicit, g.sub_unit])()
+            c = rng.choice([g.balanced, g.balanced, g.one_null, g.single, g.implicit, g.sub_unit, g.cancelling])()
+            if classify(c) == "two-nulls":
+                c = g.balanced()
         xa = c["xact"]
         day += rng.randint(0, 3)
         xa["date"] = day
@@ -775,6 +828,8 @@ def oracle_c01(case, led):
         elif len(led["rows"]) != len(case["xact"]["posts"]):
             out.append(("C01:balanced-rows", "an accepted explicit transaction is reported with %d rows for %d postings" %
                         (len(led["rows"]), len(case["xact"]["posts"]))))
+    if cls in ("one-null", "bucket") and led["kind"] != "ok":
+        out.append(("C01:elided-rejected", "a transaction that balances by inference (one elided amount / bucket) is rejected (%s)" % led["kind"]))
     if cls == "off":
         if led["kind"] == "ok":
             out.append(("C01:unbalanced-accepted", "a transaction off by at least one display unit is accepted"))
@@ -1093,6 +1148,48 @@ def boundary_cases(rng):
     add([post("B", "real", None), post("A", "real", amt(1, "EUR")), post("C", "bvirtual", None)], "two-nulls-apart")
     add([post("B2", "real", None), post("A", "real", amt(1, "EUR")), post("C", "real", None)], "two-nulls-digit")
     add([post("B", "real", None), post("V", "virtual", None), post("A", "real", amt(1, "EUR"))], "null+virtual-null")
+    # the other postings cancel exactly in every commodity (1, 2, 3 commodities), interleaved / grouped,
+    # elided posting first / middle / last; some commodities cancel and others do not; no-null and
+    # two-null controls.  (balance += keeps a cancelled commodity as a zero entry.)
+    ccs = [("$", F(10)), ("EUR", F(5)), ("AAA", F(7))]
+    for ncomm in (1, 2, 3):
+        use = ccs[:ncomm]
+        plus = [post("P:%s" % c, "real", amt(q, c)) for c, q in use]
+        minus = [post("M:%s" % c, "real", amt(-q, c)) for c, q in use]
+        orders = {"interleaved": plus + minus,
+                  "grouped": [p for pair in zip(plus, minus) for p in pair],
+                  "reversed": plus + minus[::-1]}
+        for oname, base in orders.items():
+            n = len(base)
+            for pos in sorted({0, 1, n // 2, n - 1, n}):
+                for nk in ("real", "bvirtual"):
+                    ps = [dict(p) for p in base]
+                    ps.insert(pos, post("Acc:N", nk, None))
+                    add(ps, "cancel-%s-%dc-null" % (oname, ncomm))
+            add([dict(p) for p in base], "cancel-%s-%dc-nonull" % (oname, ncomm))
+            ps = [dict(p) for p in base]
+            ps.insert(0, post("Acc:N", "real", None)); ps.append(post("Acc:M", "real", None))
+            add(ps, "cancel-%s-%dc-twonull" % (oname, ncomm))
+            # some cancel, one does not
+            for pos in (0, n // 2, n + 1):
+                ps = [dict(p) for p in base]
+                ps.insert(min(1, len(ps)), post("X", "real", amt(F(3, 2), "kWh")))
+                ps.insert(pos, post("Acc:N", "real", None))
+                add(ps, "cancel-%s-%dc-partial-null" % (oname, ncomm))
+            ps = [dict(p) for p in base]
+            ps.insert(1, post("X", "real", amt(F(3, 2), "kWh")))
+            add(ps, "cancel-%s-%dc-partial-nonull" % (oname, ncomm))
+        # [bracketed] and real postings cancel each other
+        ps = [dict(p) for p in plus] + [dict(p, kind="bvirtual") for p in minus] + [post("Acc:N", "real", None)]
+        add(ps, "cancel-bracket-%dc-null" % ncomm)
+    # cancellation through costs: the COST commodity cancels
+    p1 = post("A", "real", amt(4, "AAA")); p1["cost"] = dict(jgen.amt(F(5, 2), CMAP["$"], 2), per_unit=True)
+    p2 = post("C", "real", amt(3, "kWh")); p2["cost"] = dict(jgen.amt(F(6), CMAP["EUR"], 2), per_unit=False)
+    for pos in (0, 2, 4):
+        ps = [dict(p1), dict(p2), post("B", "real", amt(-10, "$")), post("D", "real", amt(-6, "EUR"))]
+        ps.insert(pos, post("Acc:N", "real", None))
+        add(ps, "cancel-cost-null")
+    add([dict(p1), dict(p2), post("B", "real", amt(-10, "$")), post("D", "real", amt(-6, "EUR"))], "cancel-cost-nonull")
     # magnitudes
     for e in (20, 15, 9):
         q = F(10 ** e) + F(1, 100)
